@@ -81,17 +81,27 @@ class Indentation(afmformats.AFMForceDistance):
             fp = self.fit_properties
             # Reset fit properties
             fp.reset()
-            # Set preprocessing options
-            fp["preprocessing"] = preprocessing
-            fp["preprocessing_options"] = options
+            # Forget the previous pipeline. The new one is only remembered
+            # after it has been applied successfully (see below).
+            fp.pop("preprocessing", None)
+            fp.pop("preprocessing_options", None)
+            self._preprocessing_details = {}
             # Reset rating
             self._rating = None
             # Apply preprocessing
             # (This will call `AFMData.reset_data` on self)
-            details = preproc.apply(apret=self,
-                                    identifiers=preprocessing,
-                                    options=options,
-                                    ret_details=ret_details)
+            try:
+                details = preproc.apply(apret=self,
+                                        identifiers=preprocessing,
+                                        options=options,
+                                        ret_details=ret_details)
+            except BaseException:
+                # Do not leave a partially preprocessed curve behind.
+                self.reset_data()
+                raise
+            # Set preprocessing options
+            fp["preprocessing"] = preprocessing
+            fp["preprocessing_options"] = options
             self._preprocessing_details = details
             # Check availability of axes
             for ax in ["x_axis", "y_axis"]:
